@@ -102,10 +102,10 @@ def run(tier, seed):
     states = list(parent)
     if tier == 'quick':
         items = [(s, None) for s in states]
-        styles = (0, 2, 3)
+        styles = (0, 2, 3, 4)
     else:
         items = [(s, None) for s in states]
-        styles = (0, 1, 2, 3)
+        styles = (0, 1, 2, 3, 4)
     items = core.rotate(items, seed)
 
     def work(chunk):
@@ -161,7 +161,7 @@ def replay(case):
     ref = sm.Ref(D)
     real = sm.Real()
     out = []
-    for style in (0, 1, 2, 3):
+    for style in (0, 1, 2, 3, 4):
         text, bad = check_script(sqlparse, real, ref, _complete(ref, case['events']), style)
         out.append(bad)
     bad = next((b for b in out if b), None)
